@@ -82,6 +82,7 @@ type FnTrans struct {
 	modComps   map[string]bool
 	modByComp  map[string][]modTarget
 	curInstr   int
+	curCall    *ssa.CallCommon
 	unmodelled map[ssa.Value]bool
 	atOrd      map[string]int
 	atUsed     map[int]bool
@@ -182,6 +183,9 @@ func (tr *FnTrans) analyze() {
 				stack = append(stack, p)
 			}
 		}
+	}
+	for _, li := range tr.loops {
+		sort.Slice(li.latches, func(i, j int) bool { return li.latches[i].Index < li.latches[j].Index })
 	}
 	var hs []int
 	for h := range tr.loops {
@@ -548,6 +552,9 @@ func (tr *FnTrans) run() {
 	tr.analyze()
 	if tr.fc != nil {
 		tr.wrapping = tr.fc.Wrapping
+		if len(tr.fc.Calls) > 0 {
+			tr.pureBody()
+		}
 	}
 	vc := tr.vc
 	vc.compDecl(compAlloc, sortInt)
@@ -1056,6 +1063,13 @@ func (tr *FnTrans) latch(from *ssa.BasicBlock, li *loopInfo, cond string) {
 			override[phi] = tr.val(phi.Edges[i])
 		}
 	}
+	if tr.fc.ForwardFrames {
+		var vs []Val
+		for _, v := range override {
+			vs = append(vs, v)
+		}
+		tr.seedSlices(vs, cond)
+	}
 	ec := tr.loopCtx(li, override, tr.cur)
 	k := 0
 	for j, l := range li.latches {
@@ -1165,6 +1179,39 @@ func (tr *FnTrans) exit() {
 		}
 	}
 	ec := tr.specCtx(fin, tr.entryHeap, env)
+	// ghost updates performed by the function at its exit (the only way a
+	// function under contract changes ghost state itself)
+	for _, gs := range tr.fc.GhostSets {
+		var name string
+		var idx Expr
+		switch x := gs.Target.(type) {
+		case *EIdent:
+			name = x.Name
+		case *EIndex:
+			id, ok := x.X.(*EIdent)
+			if !ok {
+				panic(vcErrorf("ghostset: unsupported target"))
+			}
+			name, idx = id.Name, x.I
+		default:
+			panic(vcErrorf("ghostset: unsupported target"))
+		}
+		g, ok := tr.w.ghosts[name]
+		if !ok {
+			panic(vcErrorf("ghostset: %s is not a ghost variable", name))
+		}
+		comp := ghostComp(name)
+		vc.compDecl(comp, ghostSort(g.Type))
+		v := ec.eval(gs.E)
+		cur := vc.hget(fin, comp)
+		nv := v.T
+		if idx != nil {
+			nv = sSto(cur, ec.eval(idx).T, v.T)
+		}
+		n := vc.fresh(comp+"@g", vc.compSort[comp])
+		vc.fact(sEq(n, nv), "")
+		fin.m[comp] = n
+	}
 	for _, c := range tr.fc.Ensures {
 		vc.oblig(tr.name+"#ensures:"+c.Label, "ensures", sImp(anyRet, ec.evalBool(c.E)), "postcondition: "+c.Text)
 	}
@@ -1478,6 +1525,12 @@ func (tr *FnTrans) frameCheck(fin *Heap, reach string) {
 		if tr.fc.ModHeap && !strings.HasPrefix(comp, "G$") {
 			continue
 		}
+		if len(tr.fc.Calls) > 0 && !strings.HasPrefix(comp, "G$") {
+			// heap effects of a function with callbacks are those of the
+			// callbacks (accounted for at its call sites by the callback
+			// rule); its own body is checked to be write-free (pureBody)
+			continue
+		}
 		ent := vc.hget(tr.entryHeap, comp)
 		f := fin.m[comp]
 		if f == ent {
@@ -1558,5 +1611,73 @@ func (tr *FnTrans) masksFromRequires(e Expr, pnames []string) {
 			m <<= 1
 		}
 		tr.setMask(p, m-1)
+	}
+}
+
+// seedSlices adds ground terms "(select E_cur (s-arr v))" for slice values, so
+// that E-matching can connect reads of older heap versions with patterns over
+// the current one (only with `hint forward-frames`).
+func (tr *FnTrans) seedSlices(vs []Val, cond string) {
+	vc := tr.vc
+	for _, p := range tr.fn.Params {
+		vs = append(vs, tr.vals[p])
+	}
+	for _, v := range vs {
+		if v.K != KSlice || v.Typ == nil {
+			continue
+		}
+		et := sliceElem(v.Typ)
+		if kindOf(et) == KStruct {
+			continue
+		}
+		comp := vc.elemComp(et)
+		_, es := splitArrSort(vc.compSort[comp])
+		seed := qsym("seed$" + comp)
+		vc.declFun(seed, []string{es}, sortBool)
+		vc.fact(sImp(cond, sApp(seed, sSel(vc.hget(tr.cur, comp), "(s-arr "+v.T+")"))), "")
+	}
+}
+
+// pureBody: a function that declares callbacks (`calls p`) must not write the
+// heap itself: no stores except to its own stack variables, no map updates,
+// no append/copy/delete, and calls only to itself, to function values
+// (the callbacks) and to functions whose contract says `modifies nothing`.
+func (tr *FnTrans) pureBody() {
+	for _, b := range tr.fn.Blocks {
+		for _, in := range b.Instrs {
+			switch x := in.(type) {
+			case *ssa.Store:
+				if a, ok := x.Addr.(*ssa.Alloc); ok && !a.Heap {
+					continue
+				}
+				if fa, ok := x.Addr.(*ssa.FieldAddr); ok {
+					if a, ok := fa.X.(*ssa.Alloc); ok && !a.Heap {
+						continue
+					}
+				}
+				panic(vcErrorf("function with callbacks writes memory itself (%s)", tr.posStr(x.Pos())))
+			case *ssa.MapUpdate:
+				panic(vcErrorf("function with callbacks updates a map itself (%s)", tr.posStr(x.Pos())))
+			case *ssa.Call:
+				if bi, ok := x.Call.Value.(*ssa.Builtin); ok {
+					switch bi.Name() {
+					case "append", "copy", "delete", "close":
+						panic(vcErrorf("function with callbacks uses %s (%s)", bi.Name(), tr.posStr(x.Pos())))
+					}
+					continue
+				}
+				callee := x.Call.StaticCallee()
+				if callee == nil {
+					continue // function value or interface method: callbacks / contracts
+				}
+				if callee == tr.fn {
+					continue
+				}
+				cfc := tr.w.contractFor(callee)
+				if cfc == nil || cfc.ModAll || cfc.ModHeap || len(cfc.Modifies) > 0 {
+					panic(vcErrorf("function with callbacks calls %s, which may write memory (%s)", callee.String(), tr.posStr(x.Pos())))
+				}
+			}
+		}
 	}
 }
